@@ -9,10 +9,13 @@ package main
 import (
 	"encoding/json"
 	"fmt"
+	"bytes"
 	"go/ast"
 	"go/parser"
+	"go/printer"
 	"go/token"
 	"os"
+	"os/exec"
 	"path/filepath"
 	"sort"
 	"strconv"
@@ -39,6 +42,13 @@ type result struct {
 	Writes     []write           `json:"writes"`
 	Priorities map[string]int    `json:"priorities"`
 	Classes    map[string]string `json:"classes"`
+	// Tables: the lexer's byte predicates evaluated on all 256 bytes by running their own source text
+	// (name -> 256 characters '0'/'1'; a predicate with a second, boolean parameter has the two entries
+	// name+"/false" and name+"/true")
+	Tables map[string]string `json:"tables"`
+	// predSrc: source text of the predicates, for the table program
+	predSrc  []string
+	predSigs map[string]int
 	// Strings: the string literals of the lexer and of the parser (their error messages among them)
 	Strings map[string][]string `json:"strings"`
 }
@@ -55,7 +65,8 @@ func main() {
 		os.Exit(2)
 	}
 	root := args[0]
-	res := result{Priorities: map[string]int{}, Classes: map[string]string{}, Strings: map[string][]string{}}
+	res := result{Priorities: map[string]int{}, Classes: map[string]string{}, Strings: map[string][]string{},
+		Tables: map[string]string{}, predSigs: map[string]int{}}
 	fset := token.NewFileSet()
 	dirs := map[string][]string{}
 	filepath.Walk(root, func(p string, info os.FileInfo, err error) error {
@@ -147,6 +158,7 @@ func main() {
 			}
 		}
 	}
+	evalPredicates(&res)
 	if coq {
 		printCoq(res)
 		return
@@ -163,6 +175,15 @@ func scanFunc(fset *token.FileSet, pkg, file string, fd *ast.FuncDecl, vars map[
 				n, _ := strconv.Atoi(bl.Value)
 				res.Priorities[recvName(fd)] = n
 			}
+		}
+	}
+	// byte predicates of the lexer: func f(c uint8[, b bool]) bool, whatever their bodies look like
+	if strings.HasSuffix(pkg, "lexer") && fd.Recv == nil {
+		if n := predArity(fd); n > 0 {
+			var buf bytes.Buffer
+			printer.Fprint(&buf, fset, fd)
+			res.predSrc = append(res.predSrc, buf.String())
+			res.predSigs[fd.Name.Name] = n
 		}
 	}
 	// character classes of the lexer
@@ -220,6 +241,91 @@ func scanFunc(fset *token.FileSet, pkg, file string, fd *ast.FuncDecl, vars map[
 		}
 		return true
 	})
+}
+
+// predArity: 1 for func(uint8|byte) bool, 2 for func(uint8|byte, bool) bool, 0 otherwise
+func predArity(fd *ast.FuncDecl) int {
+	ft := fd.Type
+	if ft.Results == nil || len(ft.Results.List) != 1 || ft.Params == nil {
+		return 0
+	}
+	if id, ok := ft.Results.List[0].Type.(*ast.Ident); !ok || id.Name != "bool" || len(ft.Results.List[0].Names) > 1 {
+		return 0
+	}
+	var types []string
+	for _, f := range ft.Params.List {
+		id, ok := f.Type.(*ast.Ident)
+		if !ok {
+			return 0
+		}
+		n := len(f.Names)
+		if n == 0 {
+			n = 1
+		}
+		for i := 0; i < n; i++ {
+			types = append(types, id.Name)
+		}
+	}
+	isByte := func(t string) bool { return t == "uint8" || t == "byte" }
+	switch {
+	case len(types) == 1 && isByte(types[0]):
+		return 1
+	case len(types) == 2 && isByte(types[0]) && types[1] == "bool":
+		return 2
+	}
+	return 0
+}
+
+// evalPredicates runs the predicates' own source text on every byte (a throw-away main package made
+// of nothing but these functions); when that program does not build — a predicate that uses
+// something else of its package — no table is produced and the tie lemmas over them fail.
+func evalPredicates(res *result) {
+	if len(res.predSrc) == 0 {
+		return
+	}
+	dir, err := os.MkdirTemp("", "srcscan-pred")
+	if err != nil {
+		return
+	}
+	defer os.RemoveAll(dir)
+	var names []string
+	for n := range res.predSigs {
+		names = append(names, n)
+	}
+	sort.Strings(names)
+	var b bytes.Buffer
+	b.WriteString("package main\n\nimport \"fmt\"\n\n")
+	for _, src := range res.predSrc {
+		b.WriteString(src + "\n\n")
+	}
+	b.WriteString("func bit(x bool) string {\n\tif x {\n\t\treturn \"1\"\n\t}\n\treturn \"0\"\n}\n\nfunc main() {\n")
+	for _, n := range names {
+		if res.predSigs[n] == 1 {
+			fmt.Fprintf(&b, "\tfmt.Print(%q, \" \")\n\tfor c := 0; c < 256; c++ {\n\t\tfmt.Print(bit(%s(uint8(c))))\n\t}\n\tfmt.Println()\n", n, n)
+		} else {
+			for _, fl := range []string{"false", "true"} {
+				fmt.Fprintf(&b, "\tfmt.Print(%q, \" \")\n\tfor c := 0; c < 256; c++ {\n\t\tfmt.Print(bit(%s(uint8(c), %s)))\n\t}\n\tfmt.Println()\n", n+"/"+fl, n, fl)
+			}
+		}
+	}
+	b.WriteString("}\n")
+	if err := os.WriteFile(filepath.Join(dir, "main.go"), b.Bytes(), 0o644); err != nil {
+		return
+	}
+	os.WriteFile(filepath.Join(dir, "go.mod"), []byte("module srcscanpred\n\ngo 1.21\n"), 0o644)
+	cmd := exec.Command("go", "run", ".")
+	cmd.Dir = dir
+	out, err := cmd.Output()
+	if err != nil {
+		fmt.Fprintln(os.Stderr, "srcscan: the lexer's byte predicates do not run on their own:", err)
+		return
+	}
+	for _, line := range strings.Split(strings.TrimSpace(string(out)), "\n") {
+		f := strings.Fields(line)
+		if len(f) == 2 && len(f[1]) == 256 {
+			res.Tables[f[0]] = f[1]
+		}
+	}
 }
 
 func recvName(fd *ast.FuncDecl) string {
@@ -297,28 +403,32 @@ func printCoq(res result) {
 		fmt.Printf("Definition g_priority_%s : nat := %d.\n", k, res.Priorities[k])
 	}
 	fmt.Println()
-	fmt.Println("(** character classes of internal/lexer, translated expression by expression *)")
-	order := []string{"isLowercase", "isUppercase", "isDigit", "isLetter", "isOkInArg", "isOkLongOpt"}
-	seen := map[string]bool{}
-	for _, k := range order {
-		if v, ok := res.Classes[k]; ok {
-			seen[k] = true
-			if k == "isOkLongOpt" {
-				fmt.Printf("Definition g_%s (c : ascii) (first : bool) : bool := %s.\n", k, v)
+	fmt.Println("(** byte predicates of internal/lexer: their own source text evaluated on all 256 bytes *)")
+	var tks []string
+	for k := range res.Tables {
+		tks = append(tks, k)
+	}
+	sort.Strings(tks)
+	for _, k := range tks {
+		var bits []string
+		for _, ch := range res.Tables[k] {
+			if ch == '1' {
+				bits = append(bits, "true")
 			} else {
-				fmt.Printf("Definition g_%s (c : ascii) : bool := %s.\n", k, v)
+				bits = append(bits, "false")
 			}
 		}
+		name := strings.NewReplacer("/false", "_notfirst", "/true", "_first").Replace(k)
+		fmt.Printf("Definition g_tbl_%s : list bool := [%s].\n", name, strings.Join(bits, "; "))
 	}
-	var rest []string
-	for k := range res.Classes {
-		if !seen[k] {
-			rest = append(rest, k)
+	for _, k := range []string{"isLowercase", "isUppercase", "isDigit", "isLetter", "isOkInArg"} {
+		if _, ok := res.Tables[k]; ok {
+			fmt.Printf("Definition g_%s (c : ascii) : bool := nth (N.to_nat (code c)) g_tbl_%s false.\n", k, k)
 		}
 	}
-	sort.Strings(rest)
-	for _, k := range rest {
-		fmt.Printf("(* unexpected predicate %s := %s *)\nDefinition g_unexpected_%s : bool := true.\n", k, res.Classes[k], k)
+	if _, ok := res.Tables["isOkLongOpt/true"]; ok {
+		fmt.Println("Definition g_isOkLongOpt (c : ascii) (first : bool) : bool :=")
+		fmt.Println("  nth (N.to_nat (code c)) (if first then g_tbl_isOkLongOpt_first else g_tbl_isOkLongOpt_notfirst) false.")
 	}
 	fmt.Println()
 	fmt.Println("(** package-level variables of the library (name, package) and the functions assigning them *)")
